@@ -126,3 +126,22 @@ def se3_premultiplication(env, cfg, ck):
     Ad = A.adjoint(np, T)
     ck.eq('value', r.A, (Ad @ x) if cls in MOTION else (Ad.T @ x), scale=1 + A.normsq(np, T[:3, 3]))
     ck.raises(lambda: 2 * C(x))
+
+
+@contract('C20', targets=[SV + 'SpatialVector.__rmul__', SV + 'SpatialVector.__init__'], configs=product(cls=SPATIAL, form=['int-list', 'int-array']))
+def se3_premultiplication_of_integer_valued_vectors(env, cfg, ck):
+    """a spatial vector built from integers (list of ints or integer array) is transformed exactly like the same
+    numbers given as reals (no truncation), and the argument is not modified"""
+    np, sm = env.np, env.sm
+    cls = cfg['cls']
+    C = getattr(sm, cls)
+    T = se3_raw(env, 'a')
+    vals = [1, -2, 3, 4, 0, -6]
+    arg = list(vals) if cfg['form'] == 'int-list' else np.array(vals)
+    snap = ck.snapshot(arg)
+    r = ck.call(lambda: sm.SE3(T, check=False) * C(arg))
+    ck.unchanged('argument-unchanged', snap)
+    ck.is_instance('class', r, C)
+    Ad = A.adjoint(np, T)
+    x = np.array([env.const(str(v)) for v in vals])
+    ck.eq('value', r.A, (Ad @ x) if cls in MOTION else (Ad.T @ x), scale=100 * (1 + A.normsq(np, T[:3, 3])))
